@@ -14,7 +14,8 @@ THEOREMS = ["C05_order_free", "C05_sorted", "C05_decode", "C05_record_determines
             "C05_ok_same_manifest", "C05_target_types_table", "C05_satisfiable"]
 RULE = ("branch maps of 0-30 branches; prefix-chain names over an adversarial alphabet; all six target kinds + "
         "dangling; alias targets: existing / missing / self / chains / 0-300 arbitrary bytes incl. NUL, ':' and digits; "
-        "each map in two insertion orders; both ignore_unresolved values; constructor and from_dict; invalid "
+        "each map in two insertion orders; both ignore_unresolved values; constructor and from_dict; after every construction "
+        "the caller's own dict is mutated (branch added, removed, set to None) and id / compute_hash / manifest re-read; invalid "
         "branches (non-alias target not 20 bytes) included; non-trivial = >=2 branches incl. an alias or a dangling one")
 TRUSTED = ["Python sorted() on (name, branch) tuples with distinct names = byte order of names; '%d' formatting; dict semantics",
            "lib/Sha1.v as an instance of the hash oracle (validated against hashlib on every case)"]
@@ -111,11 +112,13 @@ def classify(c):
     return sorted(set(ks))
 
 
-def _build(branches):
+def _build(branches, keep=None):
     from swh.model.model import Snapshot, SnapshotBranch, SnapshotTargetType
     d = {}
     for n, k, t in branches:
         d[bytes.fromhex(n)] = None if k is None else SnapshotBranch(target=bytes.fromhex(t), target_type=SnapshotTargetType(k))
+    if keep is not None:
+        keep.append(d)
     return Snapshot(branches=d)
 
 
@@ -123,8 +126,9 @@ def impl(c):
     from swh.model import git_objects
     from swh.model.model import Snapshot
     res = {}
+    kept = []
     try:
-        s = _build(c["branches"])
+        s = _build(c["branches"], kept)
     except Exception as e:
         return {"error": exc_class(e)}
     res["id"] = s.id.hex()
@@ -159,6 +163,19 @@ def impl(c):
         res["id_from_dict"] = Snapshot.from_dict(d).id.hex()
     except Exception as e:
         res["id_from_dict"] = "error:" + exc_class(e)
+    # the caller goes on using its own working dict (next snapshot of the same origin): the first snapshot must not move
+    try:
+        from swh.model.model import SnapshotBranch, SnapshotTargetType
+        d = kept[0]
+        d[b"refs/heads/added-later"] = SnapshotBranch(target=b"\x11" * 20, target_type=SnapshotTargetType.REVISION)
+        if len(d) > 1:
+            del d[next(iter(d))]
+        for k in list(d)[:1]:
+            d[k] = None
+        res["after_caller_mutation"] = [s.id.hex(), s.compute_hash().hex(),
+                                        git_objects.snapshot_git_object(s, ignore_unresolved=True).hex(), len(s.branches)]
+    except Exception as e:
+        res["after_caller_mutation"] = "error:" + exc_class(e)
     return res
 
 
@@ -220,6 +237,9 @@ def oracle(c, ires, mres):
         return "id depends on insertion order or on the construction route"
     if ires["swhid"] != "swh:1:snp:" + ires["id"]:
         return "swhid() does not carry the id"
+    if ires["after_caller_mutation"] != [ires["id"], ires["id"], ires["manifest_ignore"], len(b)]:
+        return ("after the caller mutated the dict it had passed as `branches`, the snapshot's id / compute_hash() / manifest / "
+                "number of branches are no longer those of the snapshot that was built: %s" % str(ires["after_caller_mutation"])[:120])
     want_unres = sorted((bytes.fromhex(n), bytes.fromhex(t)) for n, k, t in b
                         if k == "alias" and (bytes.fromhex(t) not in names or bytes.fromhex(t) == bytes.fromhex(n)))
     if "unresolved" in ires:
